@@ -74,6 +74,19 @@ package main
 //@   ensures refs_reached && refs1 != nil ==> result != nil
 //@   ensures fin_reached && fin1 != nil ==> result != nil
 //@   ensures result == nil && scan_reached ==> refs1 == nil && fin1 == nil && scan1 == nil
+// C14: the option table. "--verbose and --threshold=0, --critical and
+// --threshold=30" (and --no-verbose = 1) write through the variable that
+// --threshold writes; -j and --json are one flag; every other option writes
+// the variable that the gitconfig fallback of its family writes.
+//@   call 0 FlagSet).VarP("verbose") assert dyntype(arg_1, "*sizes.thresholdFlagValue") && unbox(arg_1, "*sizes.thresholdFlagValue").threshold == threshold && same(unbox(arg_1, "*sizes.thresholdFlagValue").value, 0.0) && same(arg_3, "v")
+//@   call 0 FlagSet).Var("no-verbose") assert dyntype(arg_1, "*sizes.thresholdFlagValue") && unbox(arg_1, "*sizes.thresholdFlagValue").threshold == threshold && same(unbox(arg_1, "*sizes.thresholdFlagValue").value, 1.0)
+//@   call 0 FlagSet).Var("critical") assert dyntype(arg_1, "*sizes.thresholdFlagValue") && unbox(arg_1, "*sizes.thresholdFlagValue").threshold == threshold && same(unbox(arg_1, "*sizes.thresholdFlagValue").value, 30.0)
+//@   call 0 FlagSet).Var("threshold") assert arg_1 == box(threshold, "*sizes.Threshold")
+//@   call 0 FlagSet).Var("names") assert arg_1 == box(nameStyle, "*sizes.NameStyle")
+//@   call 0 FlagSet).Var("no-progress") assert dyntype(arg_1, "*main.NegatedBoolValue") && unbox(arg_1, "*main.NegatedBoolValue").value == progress
+//@   call 0 FlagSet).BoolVar("progress") assert arg_1 == progress
+//@   call 0 FlagSet).BoolVarP("json") assert arg_1 == jsonOutput && same(arg_3, "j")
+//@   call 0 FlagSet).IntVar("json-version") assert arg_1 == jsonVersion
 
 //@ property C14: (*NegatedBoolValue).Set mainImplementation
 // main (C10): an error from mainImplementation is written to the process's
